@@ -184,16 +184,15 @@ Proof.
   destruct (is_empty x); [apply IH|]. eapply slice_len; eauto.
 Qed.
 
-(* audit item 3: every GetChunkSlice with an offset above 0 (and offset + length
-   below 2^63) misses: each tier hands back at most [length] bytes and the result is
-   tested against offset + length *)
+(* audit item 3: every GetChunkSlice with an offset above 0 misses: each tier hands
+   back at most [length] bytes and the result is tested against offset + length *)
 Lemma slice_dead : forall p st md f off len,
-  0 < off -> off + len < two63 -> get_slice_with p st md f off len = [].
+  0 < off -> get_slice_with p st md f off len = [].
 Proof.
-  intros p st md f off len Ho Hs. unfold get_slice_with.
-  assert (W : (two63 <=? off) = false) by (apply N.leb_gt; lia). rewrite W. unfold get_slice_small.
-  assert (G : forall x : bytes, blen x <= len -> ge_int (blen x) (off + len) = false).
-  { intros x Hx. unfold ge_int. apply orb_false_iff. split; [apply N.leb_gt; exact Hs|apply N.leb_gt; lia]. }
+  intros p st md f off len Ho. unfold get_slice_with.
+  destruct (slice_guard off len); [reflexivity|]. unfold get_slice_small.
+  assert (G : forall x : bytes, blen x <= len -> (off + len <=? blen x) = false).
+  { intros x Hx. apply N.leb_gt. lia. }
   set (mdd := match md with
               | Some d => match slice d off len with Some x => x | None => [] end
               | None => [] end).
@@ -205,6 +204,44 @@ Proof.
   rewrite (G _ (layer_get_slice_len (l0 st) k off len)), andb_false_r.
   rewrite (G _ (layer_get_slice_len (l1 st) k off len)), andb_false_r.
   rewrite (G _ (layer_get_slice_len (l2 st) k off len)). reflexivity.
+Qed.
+
+(* ---------- the repaired conversions: sizes that do not fit an int miss ---------- *)
+(* for uint64 values the guard of doGetChunkSlice (wrapped sum below the offset, or
+   above math.MaxInt64) is exactly "offset + length is 2^63 or more" *)
+Lemma slice_guard_spec : forall off len, off < two64 -> len < two64 ->
+  slice_guard off len = (two63 <=? off + len).
+Proof.
+  intros off len Ho Hl. unfold slice_guard, two63, two64 in *.
+  destruct (9223372036854775808 <=? off + len) eqn:E.
+  - apply N.leb_le in E. apply orb_true_iff.
+    destruct (N.lt_ge_cases (off + len) 18446744073709551616) as [Hs|Hs].
+    + right. rewrite N.mod_small by exact Hs. apply N.leb_le. exact E.
+    + left. apply N.ltb_lt.
+      assert (M : (off + len) mod 18446744073709551616 = off + len - 18446744073709551616).
+      { symmetry. apply (N.mod_unique _ _ 1); lia. }
+      rewrite M. lia.
+  - apply N.leb_gt in E. rewrite N.mod_small by lia. apply orb_false_iff.
+    split; [apply N.ltb_ge; lia|apply N.leb_gt; exact E].
+Qed.
+
+Lemma huge_get_misses : forall p st md f m, two63 <= m -> get_with p st md f m = [].
+Proof.
+  intros p st md f m H. unfold get_with, too_big. apply N.leb_le in H. rewrite H. reflexivity.
+Qed.
+
+Lemma huge_slice_misses : forall p st md f off len,
+  off < two64 -> len < two64 -> two63 <= off + len -> get_slice_with p st md f off len = [].
+Proof.
+  intros p st md f off len Ho Hl H. unfold get_slice_with.
+  rewrite (slice_guard_spec off len Ho Hl). apply N.leb_le in H. rewrite H. reflexivity.
+Qed.
+
+(* in particular an offset or a length from 2^63 on (the former findings 1 and 2) *)
+Lemma huge_offset_misses : forall p st md f off len,
+  off < two64 -> len < two64 -> two63 <= off \/ two63 <= len -> get_slice_with p st md f off len = [].
+Proof.
+  intros p st md f off len Ho Hl H. apply huge_slice_misses; auto. destruct H; lia.
 Qed.
 
 (* ---------- key-uniqueness ---------- *)
@@ -226,11 +263,11 @@ Proof.
 Qed.
 
 (* ---------- every answer is explained by a store with the same needle key ---------- *)
-Lemma allowed_intro : forall rel exp stored o f g d x,
-  op_fid o = Some f -> In (g, d) stored -> rel g f = true -> exp o d = Some x ->
-  allowed_by rel exp stored o x = true.
+Lemma allowed_intro : forall rel stored o f g d x,
+  op_fid o = Some f -> In (g, d) stored -> rel g f = true -> expected o d = Some x ->
+  allowed_by rel stored o x = true.
 Proof.
-  intros rel exp stored o f g d x Hf Hin Hr He. unfold allowed_by. rewrite Hf.
+  intros rel stored o f g d x Hf Hin Hr He. unfold allowed_by. rewrite Hf.
   apply existsb_exists. exists (g, d). split; auto.
   simpl. rewrite Hr, He, bytes_eqb_refl. reflexivity.
 Qed.
@@ -246,18 +283,14 @@ Qed.
 Lemma transparent_empty : forall stored o, transparent_answer stored o [] = true.
 Proof. reflexivity. Qed.
 
-Lemma expected_any_get : forall f m d, ge_int (blen d) m = true -> expected_any (Get f m) d = Some d.
-Proof.
-  intros f m d H. unfold expected_any, op_big. destruct (two63 <=? m) eqn:B; [reflexivity|].
-  unfold ge_int in H. rewrite B in H. simpl in H. cbn [expected]. rewrite H. reflexivity.
-Qed.
+Lemma expected_get : forall f m d, (m <=? blen d) = true -> expected (Get f m) d = Some d.
+Proof. intros f m d H. cbn [expected]. rewrite H. reflexivity. Qed.
 
-Lemma expected_any_slice : forall f off len d x,
-  slice d off len = Some x -> ge_int (blen x) (off + len) = true ->
-  expected_any (GetSlice f off len) d = Some x.
+Lemma expected_slice : forall f off len d x,
+  slice d off len = Some x -> (off + len <=? blen x) = true ->
+  expected (GetSlice f off len) d = Some x.
 Proof.
-  intros f off len d x S H. unfold expected_any, op_big. destruct (two63 <=? off + len) eqn:B; [exact S|].
-  unfold ge_int in H. rewrite B in H. simpl in H. apply N.leb_le in H.
+  intros f off len d x S H. apply N.leb_le in H.
   destruct (slice_hit _ _ _ _ S H) as [A E]. cbn [expected]. rewrite A, <- E. reflexivity.
 Qed.
 
@@ -270,17 +303,14 @@ Proof.
 Qed.
 
 Lemma explained_intro : forall stored o r,
-  allowed_by related expected_any stored o r = true -> explained stored o r = true.
+  allowed_by related stored o r = true -> explained stored o r = true.
 Proof. intros stored o r H. unfold explained. rewrite H, orb_true_r. reflexivity. Qed.
-
-Lemma explained_wild : forall stored o r, op_wild o = true -> explained stored o r = true.
-Proof. intros stored o r H. unfold explained. rewrite H. apply orb_true_r. Qed.
 
 Section Explained.
   Variable p : params.
 
   Lemma disk_get_explained : forall stored f k m lay,
-    fid_key f = Some k -> layer_ok stored lay -> ge_int (blen (layer_get lay k)) m = true ->
+    fid_key f = Some k -> layer_ok stored lay -> (m <=? blen (layer_get lay k)) = true ->
     explained stored (Get f m) (layer_get lay k) = true.
   Proof.
     intros stored f k m lay Hk Hl Hm.
@@ -288,7 +318,7 @@ Section Explained.
     destruct (layer_get_sound stored lay k (b :: d') Hl E) as [g [Gk Gin]]; [discriminate|].
     apply explained_intro.
     eapply allowed_intro; [reflexivity|exact Gin|eapply related_key; eauto|].
-    apply expected_any_get. exact Hm.
+    apply expected_get. exact Hm.
   Qed.
 
   Lemma get_explained : forall stored st md f m,
@@ -296,27 +326,28 @@ Section Explained.
     explained stored (Get f m) (get_with p st md f m) = true.
   Proof.
     intros stored st md f m [Hm [H0 [H1 H2]]] Hmd. unfold get_with.
-    destruct ((m <=? limit0 p) && ge_int (blen match md with Some d => d | None => [] end) m) eqn:C.
+    destruct (too_big m); [reflexivity|].
+    destruct ((m <=? limit0 p) && (m <=? blen match md with Some d => d | None => [] end)) eqn:C.
     - destruct md as [d|]; [|reflexivity].
       unfold mem_choices in Hmd. destruct (mem_find (mem st) f) as [d'|] eqn:E.
       + destruct Hmd as [Hmd|[Hmd|[]]]; [discriminate|]. inversion Hmd; subst d'.
         apply andb_true_iff in C. destruct C as [_ C].
         apply explained_intro.
         eapply allowed_intro; [reflexivity|apply Hm; apply mem_find_some; eauto|apply related_refl|].
-        apply expected_any_get. exact C.
+        apply expected_get. exact C.
       + destruct Hmd as [Hmd|[]]. discriminate.
     - destruct (fid_key f) as [k|] eqn:K; [|reflexivity].
-      destruct ((m <=? limit0 p) && ge_int (blen (layer_get (l0 st) k)) m) eqn:C0.
+      destruct ((m <=? limit0 p) && (m <=? blen (layer_get (l0 st) k))) eqn:C0.
       { apply andb_true_iff in C0. destruct C0 as [_ C0]. apply disk_get_explained; auto. }
-      destruct ((m <=? limit1 p) && ge_int (blen (layer_get (l1 st) k)) m) eqn:C1.
+      destruct ((m <=? limit1 p) && (m <=? blen (layer_get (l1 st) k))) eqn:C1.
       { apply andb_true_iff in C1. destruct C1 as [_ C1]. apply disk_get_explained; auto. }
-      destruct (ge_int (blen (layer_get (l2 st) k)) m) eqn:C2; [|reflexivity].
+      destruct (m <=? blen (layer_get (l2 st) k)) eqn:C2; [|reflexivity].
       apply disk_get_explained; auto.
   Qed.
 
   Lemma disk_slice_explained : forall stored f k off len lay,
     fid_key f = Some k -> layer_ok stored lay ->
-    ge_int (blen (layer_get_slice lay k off len)) (off + len) = true ->
+    (off + len <=? blen (layer_get_slice lay k off len)) = true ->
     explained stored (GetSlice f off len) (layer_get_slice lay k off len) = true.
   Proof.
     intros stored f k off len lay Hk Hl Hm.
@@ -324,7 +355,7 @@ Section Explained.
     destruct (layer_get_slice_sound stored lay k off len (b :: x') Hl E) as [g [d [Gk [Gin Sl]]]]; [discriminate|].
     apply explained_intro.
     eapply allowed_intro; [reflexivity|exact Gin|eapply related_key; eauto|].
-    apply expected_any_slice; assumption.
+    apply expected_slice; assumption.
   Qed.
 
   Lemma get_slice_explained : forall stored st md f off len,
@@ -332,11 +363,11 @@ Section Explained.
     explained stored (GetSlice f off len) (get_slice_with p st md f off len) = true.
   Proof.
     intros stored st md f off len [Hm [H0 [H1 H2]]] Hmd. unfold get_slice_with.
-    destruct (two63 <=? off) eqn:W; [apply explained_wild; exact W|]. unfold get_slice_small.
+    destruct (slice_guard off len); [reflexivity|]. unfold get_slice_small.
     set (mdd := match md with
                 | Some d => match slice d off len with Some x => x | None => [] end
                 | None => [] end).
-    destruct ((off + len <=? limit0 p) && ge_int (blen mdd) (off + len)) eqn:C.
+    destruct ((off + len <=? limit0 p) && (off + len <=? blen mdd)) eqn:C.
     - destruct md as [d|]; [|reflexivity]. unfold mdd in *.
       destruct (slice d off len) as [x|] eqn:S; [|reflexivity].
       unfold mem_choices in Hmd. destruct (mem_find (mem st) f) as [d'|] eqn:E.
@@ -344,14 +375,14 @@ Section Explained.
         apply andb_true_iff in C. destruct C as [_ C].
         apply explained_intro.
         eapply allowed_intro; [reflexivity|apply Hm; apply mem_find_some; eauto|apply related_refl|].
-        apply expected_any_slice; assumption.
+        apply expected_slice; assumption.
       + destruct Hmd as [Hmd|[]]. discriminate.
     - destruct (fid_key f) as [k|] eqn:K; [|reflexivity].
-      destruct ((off + len <=? limit0 p) && ge_int (blen (layer_get_slice (l0 st) k off len)) (off + len)) eqn:C0.
+      destruct ((off + len <=? limit0 p) && (off + len <=? blen (layer_get_slice (l0 st) k off len))) eqn:C0.
       { apply andb_true_iff in C0. destruct C0 as [_ C0]. apply disk_slice_explained; auto. }
-      destruct ((off + len <=? limit1 p) && ge_int (blen (layer_get_slice (l1 st) k off len)) (off + len)) eqn:C1.
+      destruct ((off + len <=? limit1 p) && (off + len <=? blen (layer_get_slice (l1 st) k off len))) eqn:C1.
       { apply andb_true_iff in C1. destruct C1 as [_ C1]. apply disk_slice_explained; auto. }
-      destruct (ge_int (blen (layer_get_slice (l2 st) k off len)) (off + len)) eqn:C2; [|reflexivity].
+      destruct (off + len <=? blen (layer_get_slice (l2 st) k off len)) eqn:C2; [|reflexivity].
       apply disk_slice_explained; auto.
   Qed.
 
@@ -419,24 +450,16 @@ Proof.
   intros g f. unfold key_clash, same_key. destruct (fid_key g), (fid_key f); reflexivity.
 Qed.
 
-Lemma expected_any_small : forall o d, op_big o = false -> expected_any o d = expected o d.
-Proof. intros o d H. unfold expected_any. rewrite H. reflexivity. Qed.
-
 Lemma explained_clean : forall stored o r,
   step_clean stored o = true -> explained stored o r = true -> transparent_answer stored o r = true.
 Proof.
-  intros stored o r Hc He. unfold step_clean in Hc. apply andb_true_iff in Hc. destruct Hc as [Ha Hb].
-  apply negb_true_iff in Ha, Hb.
-  assert (Hw : op_wild o = false).
-  { destruct o as [f d|f m|f off len|a b c]; try reflexivity. simpl in Hb |- *.
-    apply N.leb_gt in Hb. apply N.leb_gt. lia. }
-  unfold explained in He. rewrite Hw, orb_false_r in He. unfold transparent_answer.
+  intros stored o r Hc He. unfold step_clean in Hc. apply negb_true_iff in Hc. rename Hc into Ha.
+  unfold explained in He. unfold transparent_answer.
   destruct (is_empty r); [reflexivity|]. simpl in He |- *.
   unfold allowed_by in He. unfold alias_before in Ha.
   destruct (op_fid o) as [f|]; [|discriminate].
   apply existsb_exists in He. destruct He as [[g d] [Hin Hx]]. simpl in Hx.
   apply andb_true_iff in Hx. destruct Hx as [Hr Hx].
-  rewrite expected_any_small in Hx by exact Hb.
   apply existsb_exists. exists (g, d). split; [exact Hin|]. simpl. rewrite Hx, andb_true_r.
   destruct (fileid_eqb g f) eqn:E; [reflexivity|].
   assert (K : key_clash g f = true).
@@ -464,7 +487,7 @@ Proof.
 Qed.
 
 (* PARTIAL, per lookup: transparency at every lookup that is not preceded by a store
-   for another file id with the same needle key and whose minimum size is below 2^63 *)
+   for another file id with the same needle key *)
 Theorem transparent_narrow : forall p ops, all_from narrow_answer [] ops (run p init_state ops) = true.
 Proof. intros. eapply all_from_impl; [exact explained_narrow|apply explained_full]. Qed.
 
@@ -475,17 +498,15 @@ Proof. intros o ops f H. simpl. destruct (op_fid o); [right|]; auto. Qed.
 Lemma narrow_all_clean : forall F, uniq F -> forall ops stored outs,
   (forall g x, In (g, x) stored -> In g F) ->
   (forall f, In f (fids_of ops) -> In f F) ->
-  no_big ops = true ->
   all_from narrow_answer stored ops outs = true -> all_from transparent_answer stored ops outs = true.
 Proof.
-  intros F HF. induction ops as [|o ops IH]; intros stored outs HS Hops Hb H; [reflexivity|].
-  destruct outs as [|rs outs]; [discriminate|]. simpl in H, Hb |- *.
+  intros F HF. induction ops as [|o ops IH]; intros stored outs HS Hops H; [reflexivity|].
+  destruct outs as [|rs outs]; [discriminate|]. simpl in H |- *.
   apply andb_true_iff in H. destruct H as [H1 H2].
-  apply andb_true_iff in Hb. destruct Hb as [Hb1 Hb2].
   apply andb_true_iff. split.
   - destruct (is_lookup o); [|reflexivity].
     assert (C : step_clean stored o = true).
-    { unfold step_clean. rewrite Hb1, andb_true_r. apply negb_true_iff. unfold alias_before.
+    { unfold step_clean. apply negb_true_iff. unfold alias_before.
       destruct (op_fid o) as [f|] eqn:Of; [|reflexivity].
       destruct (existsb (fun fd => key_clash (fst fd) f) stored) eqn:X; [|reflexivity].
       apply existsb_exists in X. destruct X as [[g d] [Hin K]]. simpl in K.
@@ -502,10 +523,10 @@ Proof.
 Qed.
 
 Theorem transparent_partial : forall p ops,
-  keys_unique ops = true -> no_big ops = true ->
+  keys_unique ops = true ->
   transparent_from [] ops (run p init_state ops) = true.
 Proof.
-  intros p ops H Hb. unfold transparent_from.
+  intros p ops H. unfold transparent_from.
   apply (narrow_all_clean (fids_of ops) (keys_unique_uniq ops H)); auto.
   - intros g x [].
   - apply transparent_narrow.
@@ -529,23 +550,21 @@ Lemma witness_facts :
   run w_params init_state w_ops = [[]; [[104; 101; 108; 108; 111]]].
 Proof. vm_compute. auto. Qed.
 
-(* finding 1.  NewTieredChunkCache(_, dir, 64, 1): store 5 bytes under "3,01637037d6"
-   (third disk tier), GetChunk(same id, 2^63) returns them although 5 < 2^63 *)
+(* the witness of the former finding 1 (repaired).  NewTieredChunkCache(_, dir, 64, 1):
+   store 5 bytes under "3,01637037d6" (third disk tier); GetChunk(same id, 2^63) and
+   GetChunkSlice(same id, 1, 2^63-1) now miss, GetChunk(same id, 5) still hits *)
 Definition w1_params : params := {| unit_size := 1; disk_units := 64 |}.
 Definition w1_ops : list op :=
   [Store (Fid 3 1 1668298710) [104; 101; 108; 108; 111];
-   Get (Fid 3 1 1668298710) two63].
-
-Definition transparent_unique_keys : Prop := forall p ops,
-  keys_unique ops = true -> transparent_from [] ops (run p init_state ops) = true.
-
-Theorem unique_keys_refuted : ~ transparent_unique_keys.
-Proof. intro H. specialize (H w1_params w1_ops eq_refl). vm_compute in H. discriminate. Qed.
+   Get (Fid 3 1 1668298710) two63;
+   GetSlice (Fid 3 1 1668298710) 1 9223372036854775807;
+   Get (Fid 3 1 1668298710) 5].
 
 Lemma witness1_facts :
-  keys_unique w1_ops = true /\ no_big w1_ops = false /\
-  run w1_params init_state w1_ops = [[]; [[104; 101; 108; 108; 111]]].
-Proof. vm_compute. auto. Qed.
+  keys_unique w1_ops = true /\ hist_ok w1_ops = true /\
+  run w1_params init_state w1_ops = [[]; [[]]; [[]]; [[104; 101; 108; 108; 111]]] /\
+  transparent_from [] w1_ops (run w1_params init_state w1_ops) = true.
+Proof. vm_compute. repeat split; reflexivity. Qed.
 
 (* ---------- admitted answers ---------- *)
 Lemma admits_in : forall rs impl, admits rs impl = true -> In impl rs.
@@ -576,13 +595,13 @@ Proof.
 Qed.
 
 (* every answer the correspondence relation accepts is what the property allows,
-   under unique keys and small minimum sizes *)
+   under unique keys *)
 Theorem admitted_hit_is_spec : forall p ops impl,
-  keys_unique ops = true -> no_big ops = true ->
+  keys_unique ops = true ->
   admitted_all ops (run p init_state ops) impl = true ->
   impl_transparent [] ops impl = true.
 Proof.
-  intros p ops impl HU HB HA. unfold impl_transparent.
+  intros p ops impl HU HA. unfold impl_transparent.
   eapply admitted_from; [apply transparent_partial; assumption|exact HA].
 Qed.
 
@@ -596,29 +615,25 @@ Proof.
 Qed.
 
 (* ---------- the trigger of the check is exact ---------- *)
-(* an explained answer that is not transparent is an instance of finding 0 or 1 at
-   that very lookup *)
+(* an explained answer that is not transparent is an instance of finding 0 at that
+   very lookup *)
 Lemma explained_classes : forall stored o r,
   explained stored o r = true -> transparent_answer stored o r = false ->
-  alias_answer stored o r = true \/ big_answer stored o r = true \/ wild_answer stored o r = true.
+  alias_answer stored o r = true.
 Proof.
-  intros stored o r He Ht. destruct (op_wild o) eqn:W; [right; right; exact W|].
-  destruct (op_big o) eqn:B.
-  - right. left. unfold big_answer. rewrite B, W, He. reflexivity.
-  - left. unfold alias_answer. rewrite B. simpl.
-    unfold explained in He. rewrite W, orb_false_r in He. unfold transparent_answer in Ht.
-    destruct (is_empty r); [discriminate|]. simpl in He, Ht.
-    unfold allowed_by in *. destruct (op_fid o) as [f|]; [|discriminate].
-    apply existsb_exists in He. destruct He as [[g d] [Hin Hx]]. simpl in Hx.
-    apply andb_true_iff in Hx. destruct Hx as [Hr Hx].
-    rewrite expected_any_small in Hx by exact B.
-    apply existsb_exists. exists (g, d). split; [exact Hin|]. simpl. rewrite Hx, andb_true_r.
-    destruct (fileid_eqb g f) eqn:E.
-    + exfalso. assert (X : existsb (fun fd => fileid_eqb (fst fd) f &&
-                 match expected o (snd fd) with Some x => bytes_eqb x r | None => false end) stored = true).
-      { apply existsb_exists. exists (g, d). split; auto. simpl. rewrite E, Hx. reflexivity. }
-      congruence.
-    + rewrite key_clash_split, E. unfold related in Hr. rewrite E in Hr. simpl in Hr. rewrite Hr. reflexivity.
+  intros stored o r He Ht. unfold alias_answer.
+  unfold explained in He. unfold transparent_answer in Ht.
+  destruct (is_empty r); [discriminate|]. simpl in He, Ht.
+  unfold allowed_by in *. destruct (op_fid o) as [f|]; [|discriminate].
+  apply existsb_exists in He. destruct He as [[g d] [Hin Hx]]. simpl in Hx.
+  apply andb_true_iff in Hx. destruct Hx as [Hr Hx].
+  apply existsb_exists. exists (g, d). split; [exact Hin|]. simpl. rewrite Hx, andb_true_r.
+  destruct (fileid_eqb g f) eqn:E.
+  + exfalso. assert (X : existsb (fun fd => fileid_eqb (fst fd) f &&
+               match expected o (snd fd) with Some x => bytes_eqb x r | None => false end) stored = true).
+    { apply existsb_exists. exists (g, d). split; auto. simpl. rewrite E, Hx. reflexivity. }
+    congruence.
+  + rewrite key_clash_split, E. unfold related in Hr. rewrite E in Hr. simpl in Hr. rewrite Hr. reflexivity.
 Qed.
 
 (* so: when the model admits the implementation's answers, [classify] never
@@ -631,10 +646,7 @@ Proof.
   simpl in H |- *. apply andb_true_iff in H. destruct H as [H1 H2].
   destruct (is_lookup o) eqn:L; simpl; [|apply IH; exact H2].
   destruct (transparent_answer stored o r) eqn:T; simpl; [apply IH; exact H2|].
-  destruct (explained_classes stored o r H1 T) as [A|[B|W]].
-  - rewrite A. apply IH. exact H2.
-  - rewrite B. destruct (alias_answer stored o r); apply IH; exact H2.
-  - rewrite W. destruct (alias_answer stored o r); [|destruct (big_answer stored o r)]; apply IH; exact H2.
+  rewrite (explained_classes stored o r H1 T). apply IH. exact H2.
 Qed.
 
 Lemma classify_acc_some : forall ops stored impl k t,
@@ -645,9 +657,7 @@ Proof.
   - destruct impl as [|r impl]; [simpl in C; inversion C; discriminate|].
     simpl in C.
     destruct (is_lookup o && negb (transparent_answer stored o r)); [|eapply IH; eauto].
-    destruct (alias_answer stored o r); [eapply IH; eauto|].
-    destruct (big_answer stored o r); [eapply IH; eauto|].
-    destruct (wild_answer stored o r); [eapply IH; eauto|discriminate].
+    destruct (alias_answer stored o r); [eapply IH; eauto|discriminate].
 Qed.
 
 (* and a failing run always gets a number *)
@@ -661,15 +671,28 @@ Proof.
   destruct (is_lookup o) eqn:L; simpl in C, F.
   - destruct (transparent_answer stored o r) eqn:T; simpl in C, F.
     + eapply IH; eauto.
-    + clear F. destruct (alias_answer stored o r).
-      * destruct acc as [k|].
-        -- eapply classify_acc_some; eauto.
-        -- eapply classify_acc_some; eauto.
-      * destruct (big_answer stored o r).
-        -- destruct acc as [k|]; eapply classify_acc_some; eauto.
-        -- destruct (wild_answer stored o r); [|discriminate].
-           destruct acc as [k|]; eapply classify_acc_some; eauto.
+    + clear F. destruct (alias_answer stored o r); [|discriminate].
+      destruct acc as [k|]; eapply classify_acc_some; eauto.
   - eapply IH; eauto.
+Qed.
+
+(* the only number the trigger emits is 0 (1 and 2 belonged to the repaired findings) *)
+Lemma classify_only_zero : forall ops stored impl acc t,
+  classify stored ops impl acc = Some t -> (acc = None \/ acc = Some 0) -> (t = None \/ t = Some 0).
+Proof.
+  induction ops as [|o ops IH]; intros stored impl acc t C A.
+  - simpl in C. inversion C; subst. exact A.
+  - destruct impl as [|r impl]; [simpl in C; inversion C; subst; exact A|].
+    simpl in C.
+    destruct (is_lookup o && negb (transparent_answer stored o r)); [|eapply IH; eauto].
+    destruct (alias_answer stored o r); [|discriminate].
+    eapply IH; [exact C|]. right. destruct A as [A|A]; subst; reflexivity.
+Qed.
+
+Theorem trigger_only_zero : forall ops impl, trigger ops impl = None \/ trigger ops impl = Some 0.
+Proof.
+  intros ops impl. unfold trigger. destruct (classify [] ops impl None) as [t|] eqn:C; [|left; reflexivity].
+  eapply classify_only_zero; [exact C|left; reflexivity].
 Qed.
 
 Theorem trigger_total : forall p ops impl,
@@ -685,10 +708,10 @@ Proof.
 Qed.
 
 Lemma narrow_spec : forall stored o r,
-  narrow_answer stored o r = true -> alias_before stored o = false -> op_big o = false ->
+  narrow_answer stored o r = true -> alias_before stored o = false ->
   transparent_answer stored o r = true.
 Proof.
-  intros stored o r H A B. unfold narrow_answer, step_clean in H. rewrite A, B in H. exact H.
+  intros stored o r H A. unfold narrow_answer, step_clean in H. rewrite A in H. exact H.
 Qed.
 
 (* one content per file id: nothing stale can be returned *)
@@ -711,7 +734,7 @@ Lemma example_facts :
               Store c [20; 21; 22];
               Restart [(0, true); (1, true)] [(0, true); (1, true); (2, true)] [(0, true); (1, true)];
               Get a 1; Get b 4; Get c 1; GetSlice b 0 3] in
-  keys_unique ops = true /\ no_big ops = true /\ hist_ok ops = true /\
+  keys_unique ops = true /\ hist_ok ops = true /\
   run p init_state ops = [[]; []; []; []; [[]]; [[10; 11; 12; 13; 14; 15; 16; 17; 18; 19]]; [[]]; [[10; 11; 12]]].
 Proof. vm_compute. repeat split; reflexivity. Qed.
 
@@ -725,20 +748,22 @@ Lemma example_mixed_facts :
   run p init_state ops = [[]; []; []; [[]]; [[4; 5; 6]]].
 Proof. vm_compute. repeat split; reflexivity. Qed.
 
-(* finding 2.  NewTieredChunkCache(_, dir, 64, 8): "abcde" and "XYZ" stored under two
-   ids; GetChunkSlice("XYZ" id, 2^64-1, 2) panics when the memory tier has the entry
-   and returns the padding byte in front of the needle plus "X" otherwise; after a
-   restart GetChunkSlice(id, 2^64-4, 6) returns "e" 0 0 0 "XY" *)
+(* the witness of the former finding 2 (repaired).  NewTieredChunkCache(_, dir, 64, 8):
+   "abcde" and "XYZ" stored under two ids; GetChunkSlice("XYZ" id, 2^64-1, 2) used to
+   panic in the memory tier, after a restart GetChunkSlice(id, 2^64-4, 6) used to
+   return "e" 0 0 0 "XY" from the disk tier: both miss now (with and without the
+   memory entry), the plain lookup after them still hits *)
 Definition w2_params : params := {| unit_size := 8; disk_units := 64 |}.
 Definition w2_ops : list op :=
   [Store (Fid 3 1 1668298710) [97; 98; 99; 100; 101];
    Store (Fid 3 2 1668298710) [88; 89; 90];
    GetSlice (Fid 3 2 1668298710) 18446744073709551615 2;
    Restart [(1, false); (0, false)] [(2, false); (1, false); (0, false)] [(1, false); (0, false)];
-   GetSlice (Fid 3 2 1668298710) 18446744073709551612 6].
+   GetSlice (Fid 3 2 1668298710) 18446744073709551612 6;
+   Get (Fid 3 2 1668298710) 1].
 
 Lemma witness2_facts :
   keys_unique w2_ops = true /\ hist_ok w2_ops = true /\
-  run w2_params init_state w2_ops = [[]; []; [[0; 88]; panic_mark]; []; [[101; 0; 0; 0; 88; 89]]] /\
-  transparent_from [] w2_ops (run w2_params init_state w2_ops) = false.
+  run w2_params init_state w2_ops = [[]; []; [[]; []]; []; [[]]; [[88; 89; 90]]] /\
+  transparent_from [] w2_ops (run w2_params init_state w2_ops) = true.
 Proof. vm_compute. repeat split; reflexivity. Qed.
